@@ -3,8 +3,8 @@
 # worktree /tmp/mut/<Cxx>: compiles, suite passes with it, demo fails with it and passes without it.
 # On success copies it to /verif/seeded/<Cxx>-<i>/ (patch.diff, demo.rs, meta.json).
 set -u
-ID="$1"; I="$2"
-WT=/tmp/mut/$ID; OUT=/tmp/mut/out/$ID
+ID="$1"; I="$2"; BASE="${3:-/tmp/mut}"; TAG="${4:-}"
+WT=$BASE/$ID; OUT=$BASE/out/$ID
 META=$OUT/meta$I.json
 [ -f "$META" ] || { echo "no $META"; exit 3; }
 DEMO_PATH=$(python3 -c "import json;print(json.load(open('$META'))['demo_path_in_repo'])")
@@ -15,12 +15,12 @@ git apply $OUT/mut$I.diff || { echo "RESULT $ID-$I patch-does-not-apply"; exit 1
 SUITE=$(cargo test --workspace --offline 2>&1 | grep -E "^test result|^error" )
 if echo "$SUITE" | grep -qE "FAILED|^error"; then echo "RESULT $ID-$I suite-fails-with-change"; echo "$SUITE" | grep -E "FAILED|error" | head -3; git checkout -q -- .; exit 1; fi
 mkdir -p "$(dirname $DEMO_PATH)"; cp $OUT/demo$I.rs $DEMO_PATH
-( eval "$DEMO_CMD" ) > /tmp/mut/out/$ID/confirm$I.with.log 2>&1; RC_WITH=$?
+( eval "$DEMO_CMD" ) > $OUT/confirm$I.with.log 2>&1; RC_WITH=$?
 git apply -R $OUT/mut$I.diff
-( eval "$DEMO_CMD" ) > /tmp/mut/out/$ID/confirm$I.without.log 2>&1; RC_WITHOUT=$?
+( eval "$DEMO_CMD" ) > $OUT/confirm$I.without.log 2>&1; RC_WITHOUT=$?
 rm -f $DEMO_PATH; git checkout -q -- . ; git clean -qfd -e target
 if [ $RC_WITH -ne 0 ] && [ $RC_WITHOUT -eq 0 ]; then
-  D=/verif/seeded/$ID-$I; mkdir -p $D
+  D=/verif/seeded/$ID-$TAG$I; mkdir -p $D
   cp $OUT/mut$I.diff $D/patch.diff; cp $OUT/demo$I.rs $D/demo.rs
   python3 - "$META" "$D/meta.json" <<PY
 import json,sys
@@ -29,7 +29,7 @@ m["confirmed_by_main_session"]={"suite_passes_with_change":True,"demo_fails_with
   "how":"tools/confirm_seed.sh in a scratch worktree of /repo HEAD: git apply; cargo test --workspace --offline; demo placed at demo_path_in_repo and run with demo_cmd (non-zero exit); git apply -R; demo re-run (exit 0)"}
 json.dump(m,open(sys.argv[2],"w"),indent=1)
 PY
-  echo "RESULT $ID-$I confirmed"
+  echo "RESULT $ID-$TAG$I confirmed"
 else
   echo "RESULT $ID-$I NOT-confirmed with=$RC_WITH without=$RC_WITHOUT"
 fi
